@@ -4,6 +4,8 @@ import (
 	"fmt"
 	"strconv"
 	"strings"
+	"unicode"
+	"unicode/utf8"
 )
 
 type TokenType byte
@@ -399,8 +401,28 @@ func isFloat(val string) bool {
 	return false
 }
 
+// lowerWord folds the case of the letters of a word. strings.ToLower would
+// also replace every byte that is not valid UTF-8 by U+FFFD: such a byte is
+// not a letter, it is kept as it is
+func lowerWord(s string) string {
+	if utf8.ValidString(s) {
+		return strings.ToLower(s)
+	}
+	var b strings.Builder
+	for i := 0; i < len(s); {
+		r, w := utf8.DecodeRuneInString(s[i:])
+		if r == utf8.RuneError && w == 1 {
+			b.WriteByte(s[i])
+		} else {
+			b.WriteRune(unicode.ToLower(r))
+		}
+		i += w
+	}
+	return b.String()
+}
+
 func buildToken(curr string, pos int) *Token {
-	curr = strings.ToLower(curr)
+	curr = lowerWord(curr)
 	if len(curr) == 0 {
 		return nil
 	}
